@@ -179,6 +179,11 @@ def check_case(kind: str, t: str, a: int, b: int):
             return (sp.lines(), str(sp), s.line_col(), e.line_col(), s.line_of(), e.line_of(), (sp.start, sp.end), (x.line_col(), y.line_col()))
 
         got = call(g)
+    elif kind == "parsed_pairs":
+        # pairs as a parser hands them out (interpreter: b = 0, generated module: b = 1): their offsets and every utility are about
+        # the text that was passed to parse()
+        exp = "every pair consistent with the text passed to parse()"
+        got = call(lambda: _parsed_pairs_defect(t, b)) or exp
     elif kind == "injective":
         # two different offsets must not share (line, column)
         exp = "different (line, column)"
@@ -189,6 +194,35 @@ def check_case(kind: str, t: str, a: int, b: int):
     if got == exp:
         return None
     return {"expected": _jsonable(exp), "observed": _jsonable(got)}
+
+
+_LINES_GRAMMAR = 'doc = { SOI ~ line* ~ EOI }\nline = { (!"\\n" ~ ANY)+ ~ "\\n"? | "\\n" }\n'
+_LINES_PARSE: dict = {}
+
+
+def _parsed_pairs_defect(t: str, generated: int):
+    import types
+
+    from pest import Parser
+    if not _LINES_PARSE:
+        p = Parser.from_grammar(_LINES_GRAMMAR)
+        m = types.ModuleType("generated_lines")
+        exec(compile(p.generate(), "<generated>", "exec"), m.__dict__)  # noqa: S102
+        _LINES_PARSE[0], _LINES_PARSE[1] = p.parse, m.parse
+    pairs = list(_LINES_PARSE[generated]("doc", t).flatten())
+    lines_seen = [p for p in pairs if p.name == "line"]
+    if "".join(t[p.start : p.end] for p in lines_seen) != t:
+        return f"the line pairs {[(p.start, p.end) for p in lines_seen]} do not tile the text"
+    for p in pairs:
+        a, b = p.start, p.end
+        sp = p.span()
+        obs = (str(p), p.line_col(), str(sp), sp.lines(), sp.start_pos().line_col(), sp.end_pos().line_col(), sp.end_pos().line_of())
+        exp = (t[a:b], spec_line_col(t, a), t[a:b], spec_span_lines(t, a, b), spec_line_col(t, a), spec_line_col(t, b), spec_line_of(t, b))
+        if obs != exp:
+            i = next(i for i in range(len(obs)) if obs[i] != exp[i])
+            what = ["str(pair)", "pair.line_col()", "str(span)", "span.lines()", "start_pos().line_col()", "end_pos().line_col()", "end_pos().line_of()"][i]
+            return f"{p.name}[{a}:{b}] {what}: observed {obs[i]!r}, by the text passed to parse() {exp[i]!r}"
+    return None
 
 
 def _jsonable(v):
@@ -443,6 +477,15 @@ def run(out: Outcome) -> None:
             concrete += bads
             corr += [{"kind": "random", "request": ln, "impl": a, "model": b} for ln, a, b in mism]
 
+    # pairs handed out by a parser (both execution modes) on short texts, plain and behind characters a text may start with
+    for pre_ in ("", "\ufeff", "\ufeff\n", "\u00a0", "\x00", " \n"):
+        for k_ in range(5 if thorough else 4):
+            for body_ in itertools.product("a\n", repeat=k_):
+                t_ = pre_ + "".join(body_)
+                for g_ in (0, 1):
+                    evals += 1
+                    if check_case("parsed_pairs", t_, 0, g_) is not None:
+                        concrete.append(("parsed_pairs", t_, 0, g_))
     samples = []
     for t in ("ab\nb\n", "a\n\nb"):
         r, a, _ = eval_text(t, [(1, len(t))], True)
